@@ -740,6 +740,9 @@ class Path(parent.Geometry):
             process=False,
         )
 
+        # make sure we aren't copying values that are stale
+        # because vertices or entities were edited in place
+        self._cache.verify()
         cache = {}
         # try to copy the cache over to the new object
         try:
